@@ -204,7 +204,6 @@ def register(R, tier="quick"):
       loops={0: LoopSpec(inv=["minv(self.a)", "minv(self.b)",
                               "pos(self.a) >= old(pos(self.a))", "pos(self.b) >= old(pos(self.b))",
                               "implies(pos(a) < INF, a_id == pos(a))", "implies(pos(b) < INF, b_id == pos(b))",
-                              "a is self.a", "b is self.b",
                               "forall(lambda s: implies(mem(self, s) and s >= old(pos(self.a)) and s >= old(pos(self.b)), "
                               "s >= pos(a) and s >= pos(b)))"])},
       canaries=[Canary("skip-past-target", "ra = a.skip_to(b_id)", "ra = a.skip_to(b_id + 1)"),
@@ -299,8 +298,7 @@ def register(R, tier="quick"):
       ensures=["minv(self)", "wfpos(self)", "pos(self.a) >= old(pos(self.a))",
                "forall(lambda s: implies(mem(self, s) and s >= old(pos(self.a)), s >= pos(self)))"],
       returns="opaque",
-      loops={0: LoopSpec(inv=["minv(self.a)", "minv(self.b)", "pos is self.a", "neg is self.b",
-                              "position(self.a) >= old(position(self.a))", "position(self.a) < INF",
+      loops={0: LoopSpec(inv=["minv(self.a)", "minv(self.b)", "position(self.a) >= old(position(self.a))", "position(self.a) < INF",
                               "pos_id == position(self.a)",
                               "position(neg) >= pos_id",
                               "none_in(neg, pos_id, position(neg))",
@@ -381,14 +379,13 @@ def register(R, tier="quick"):
             post = ["minv(self.a)", "minv(self.b)", "pos(self) >= old(pos(self))", "low_passed(self, minquality)",
                     "forall(lambda s: implies(mem(self, s) and s >= old(pos(self)) and s < pos(self), "
                     "score_at(self, s) <= minquality))"]
-            loops = {0: LoopSpec(inv=["minv(self.a)", "minv(self.b)", "a is self.a", "b is self.b",
-                                      "is_none(self._id)", "pos(self) >= old(pos(self))",
+            loops = {0: LoopSpec(inv=["minv(self.a)", "minv(self.b)", "is_none(self._id)", "pos(self) >= old(pos(self))",
                                       "low_passed(self, minquality)",
                                       "forall(lambda s: implies(mem(self, s) and s >= old(pos(self)) and s < pos(self), "
                                       "score_at(self, s) <= minquality))"])}
         else:
             post = SKQ_POST
-            loops = {0: LoopSpec(inv=["minv(self)", "a is self.a", "b is self.b", "pos(self) >= old(pos(self))",
+            loops = {0: LoopSpec(inv=["minv(self)", "pos(self) >= old(pos(self))",
                                       "forall(lambda s: implies(mem(self, s) and s >= old(pos(self)) and s < pos(self), "
                                       "score_at(self, s) <= minquality))"])} if cls != "AndNotMatcher" else {}
         C(key + "skip_to_quality", props=PROPS_Q, setup=mk_args(cls, {"minquality": "real"}, **extra),
@@ -431,7 +428,7 @@ def register(R, tier="quick"):
           requires=SKQ_REQ + ["minquality >= 0", "global_bq(%s)" % glob, "below(%s, %s)" % low],
           ensures=["minv(self)", "wfpos(self)", "pos(self) >= old(pos(self))", SKQ_CLAUSE],
           modifies=["self.a", "self.b"], returns="int",
-          loops={0: LoopSpec(inv=["minv(self)", "a is self.a", "b is self.b", "pos(self) >= old(pos(self))",
+          loops={0: LoopSpec(inv=["minv(self)", "pos(self) >= old(pos(self))",
                                   "pos(a) >= old(pos(self.a))", "pos(b) >= old(pos(self.b))", SKQ_CLAUSE, bound,
                                   "exists(lambda p: aq == a.bq(p))", "exists(lambda p: bq == b.bq(p))",
                                   "implies(pos(a) < INF, score_at(a, pos(a)) <= aq)",
@@ -459,8 +456,7 @@ def register(R, tier="quick"):
               requires=SKQ_REQ + ["minquality >= 0", "global_bq(%s)" % glob, "below(%s, %s)" % low],
               ensures=["minv(self.a)", "minv(self.b)", "pos(self) >= old(pos(self))", SKQ_CLAUSE, PASSED_LOW],
               modifies=["self.a", "self.b"], returns="int",
-              loops={0: LoopSpec(inv=["minv(self.a)", "minv(self.b)", "a is self.a", "b is self.b",
-                                      "pos(self) >= old(pos(self))", "pos(a) >= old(pos(self.a))",
+              loops={0: LoopSpec(inv=["minv(self.a)", "minv(self.b)", "pos(self) >= old(pos(self))", "pos(a) >= old(pos(self.a))",
                                       "pos(b) >= old(pos(self.b))", SKQ_CLAUSE, bound,
                                       "exists(lambda p: aq == a.bq(p))", "exists(lambda p: bq == b.bq(p))",
                                       "implies(pos(a) < INF, score_at(a, pos(a)) <= aq)",
